@@ -48,5 +48,18 @@ func init() {
 		assumptions: []string{"watchers.go is instrumented with a yield before every statement and a scheduler-aware mutex; exactly one task runs at a time", "porcupine decides linearizability of the put/take-all history against a multiset accumulator; Unknown (timeout) is harness trouble, never a verdict"},
 		real:        []string{"pkg/controller/reconciler watchers: handlers, predicates, compose/notify, getChangedObjects/initCh"},
 		stub:        []string{"validator (class membership read from the object)", "reconcile queue: recorder", "informers: scheduler-owned tasks"}}
+	propMeta["C03"] = l2("routing and routing-static profiles: after every sync point ~100..400 requests (declared paths and their neighbours, both schemes, host case/port variants, unknown hosts) are evaluated on the written files and on the running HAProxy and compared with a reference router written from the Ingress specification; non-trivial = at least 2 reconciliations and 2 router comparisons; distinct = distinct trace signature",
+		"the request evaluator interprets the frontend/backend rules HAProxy would run (map converters, use_backend, redirects, denies); an unmodelled construct is harness trouble (exit 2), never a verdict",
+		"the reference accepts either rule when one path is declared with two non-exact types, and ready+terminating endpoints as drained")
+	propMeta["C04"] = meta{rule: "each run = one path-type-order permutation and 2..16 (host, path, type) rules fed to the real map builder, whose internal map iteration is decided by the tape; every declared path and its neighbours is looked up on declared and foreign hosts; non-trivial = every run (a rule set was compared); distinct = distinct trace signature",
+		assumptions: []string{"lookup semantics of map_str/map_beg/map_dir/map_reg (first file that answers wins) are re-implemented in the harness"},
+		real:        []string{"pkg/haproxy/types maps.go (CreateMaps, AddHostnamePathMapping, MatchFiles/rebuildMatchFiles), hosts.go, backends.go"},
+		stub:        []string{"HAProxy map lookup: harness evaluator"}}
+	propMeta["C08"] = l2("class profile: worlds with class annotations, spec.ingressClassName, IngressClass objects (own and foreign controller, parameters), watch-ingress-without-class, controller class flags; the real IsValidIngress predicate is compared with a reference predicate for every ingress, and every host/certificate in the written configuration must be attributable to a selected ingress; non-trivial = at least 2 reconciliations and 2 comparisons; distinct = distinct trace signature")
+	propMeta["C15"] = l2("tls profile: for every declared host and a few undeclared ones the certificate HAProxy would present for that SNI (crt-list lookup, exact then wildcard then default) is compared with the secret the oldest declaring ingress names, on files and on the running state after set/commit ssl cert; non-trivial = at least 2 reconciliations and 2 comparisons; distinct = distinct trace signature",
+		"certificates are compared by key-pair identity, never by file name")
+	propMeta["C18"] = l2("auth profile: auth-url (well-formed, malformed, dangling, svc://), oauth, both placements, auth-proxy ranges of 1, 2 and 5 ports or default, external-has-lua on/off; every request that the reference router gives to a rule of an ingress declaring authentication must be denied or pass lua.auth-intercept, and an intercept must reach the servers the declared auth-url resolves to; non-trivial = a protected request was judged after at least 2 reconciliations; distinct = distinct trace signature",
+		"requests that reach a backend other than the one their declaration names are routing matters (C03) and not judged here",
+		"the authentication target is not checked for requests that fell to the default host (they are resolved again inside the backend and may match another ingress' host rule)")
 	propMeta["C12"] = l2("churn histories with disk/socket/reload/API faults, then faults stop and no further cluster change happens; non-trivial = at least one fault fired and the convergence check ran; distinct = distinct trace signature")
 }
